@@ -3,6 +3,7 @@
 package main
 
 import (
+	storetypes "cosmossdk.io/store/types"
 	perpkeeper "github.com/elys-network/elys/x/perpetual/keeper"
 	levkeeper "github.com/elys-network/elys/x/leveragelp/keeper"
 	"encoding/json"
@@ -92,8 +93,14 @@ func (c *Chain) observeSub(ctx sdk.Context, where string, owner string, id uint6
 		}
 		o.Tx = i
 	}
-	o.State = c.Project(ctx)
+	o.State = c.Project(unmetered(ctx))
 	c.obs = append(c.obs, o)
+}
+
+// unmetered: the projection reads the same stores through a context with its own infinite gas meter, so that observing a
+// transaction does not consume the transaction's (and thereby the block's) gas.
+func unmetered(ctx sdk.Context) sdk.Context {
+	return ctx.WithGasMeter(storetypes.NewInfiniteGasMeter())
 }
 
 // TxSpec is one transaction to be placed in the next block.
@@ -226,7 +233,7 @@ func (c *Chain) observe(ctx sdk.Context, kind string, ok bool) {
 		// the context of a failed tx still holds its partial writes (baseapp discards them afterwards)
 		o.State = nil
 	} else {
-		o.State = c.Project(ctx)
+		o.State = c.Project(unmetered(ctx))
 	}
 	c.obs = append(c.obs, o)
 }
